@@ -193,10 +193,28 @@ def neutral_variants(root=None):
     return out
 
 
-def audit_property(prop, root=None):
+def _audit_job(job):
+    """one variant analysed under one property (worker of the audit pool)"""
     import check as check_mod
 
+    kind, prop, root, vid, title, overlay = job
+    try:
+        run, mod = check_mod.analyse(prop, "quick", root, overlay, None)
+        viol = run.violations()
+        errs = (run.errors + run.vacuous()) if kind == "neutral" else []
+        rules = sorted(set(o.rule for o in viol))
+        detail = [o.rule + " " + o.construct for o in viol[:3]]
+    except sa_model.AnalysisError as err:
+        viol, rules, detail = [], ["ANALYSIS-ERROR: %s" % str(err)[:80]], []
+        errs = [str(err)] if kind == "neutral" else []
+    return kind, vid, title, bool(viol), rules, detail, [e[:100] for e in errs[:2]]
+
+
+def audit_property(prop, root=None):
+    import multiprocessing
+
     res = {"breaking": 0, "detected": 0, "missed": [], "neutral": 0, "neutral_silent": 0, "neutral_alarms": [], "skipped": [], "detected_variants": []}
+    jobs = []
     for vid, vprop, title, overlay, detected_by in breaking_variants(root):
         expected = vprop == prop or prop in detected_by
         if not expected:
@@ -204,46 +222,34 @@ def audit_property(prop, root=None):
         if overlay is None:
             res["skipped"].append("%s (patch does not apply to the current tree)" % vid)
             continue
-        res["breaking"] += 1
-        try:
-            run, mod = check_mod.analyse(prop, "quick", root, overlay, None)
-            hit = bool(run.violations())
-            rules = sorted(set(o.rule for o in run.violations()))
-        except sa_model.AnalysisError as err:
-            hit, rules = False, ["ANALYSIS-ERROR: %s" % str(err)[:80]]
-        if hit:
-            res["detected"] += 1
-            res["detected_variants"].append("%s -> %s" % (vid, ",".join(rules)))
-        else:
-            res["missed"].append("%s (%s) %s" % (vid, title[:60], ",".join(rules)))
+        jobs.append(("breaking", prop, root, vid, title, overlay))
     for vid, props, desc, overlay in catalogue_variants(root):
         if prop not in props:
             continue
         if overlay is None:
             res["skipped"].append("%s (the edited text is not in the current tree)" % vid)
             continue
-        res["breaking"] += 1
-        try:
-            run, mod = check_mod.analyse(prop, "quick", root, overlay, None)
-            hit = bool(run.violations())
-            rules = sorted(set(o.rule for o in run.violations()))
-        except sa_model.AnalysisError as err:
-            hit, rules = False, ["ANALYSIS-ERROR: %s" % str(err)[:80]]
-        if hit:
-            res["detected"] += 1
-            res["detected_variants"].append("%s -> %s" % (vid, ",".join(rules)))
-        else:
-            res["missed"].append("%s (%s) %s" % (vid, desc[:60], ",".join(rules)))
+        jobs.append(("breaking", prop, root, vid, desc, overlay))
     for vid, title, overlay in neutral_variants(root):
-        res["neutral"] += 1
-        try:
-            run, mod = check_mod.analyse(prop, "quick", root, overlay, None)
-            viol = run.violations()
-            errs = run.errors + run.vacuous()
-        except sa_model.AnalysisError as err:
-            viol, errs = [], [str(err)]
-        if not viol and not errs:
-            res["neutral_silent"] += 1
+        jobs.append(("neutral", prop, root, vid, title, overlay))
+    n_proc = max(1, min(16, os.cpu_count() or 1, len(jobs)))
+    if n_proc > 1:
+        with multiprocessing.get_context("fork").Pool(n_proc) as pool:
+            results = pool.map(_audit_job, jobs, chunksize=1)
+    else:
+        results = [_audit_job(j) for j in jobs]
+    for kind, vid, title, hit, rules, detail, errs in results:
+        if kind == "breaking":
+            res["breaking"] += 1
+            if hit:
+                res["detected"] += 1
+                res["detected_variants"].append("%s -> %s" % (vid, ",".join(rules)))
+            else:
+                res["missed"].append("%s (%s) %s" % (vid, title[:60], ",".join(rules)))
         else:
-            res["neutral_alarms"].append("%s: %s" % (vid, "; ".join([o.rule + " " + o.construct for o in viol[:3]] + [e[:100] for e in errs[:2]])))
+            res["neutral"] += 1
+            if not hit and not errs:
+                res["neutral_silent"] += 1
+            else:
+                res["neutral_alarms"].append("%s: %s" % (vid, "; ".join(detail + errs)))
     return res
